@@ -69,7 +69,7 @@ func (k *K) Failf(sig, f string, a ...interface{}) {
 
 // Wait blocks until every SUT goroutine is durably blocked, then runs the invariant.
 func (k *K) Wait() {
-	synctest.Wait()
+	kernelBlock(synctest.Wait)
 	if k.Invariant != nil && !k.inInv {
 		k.inInv = true
 		k.Invariant()
@@ -101,7 +101,7 @@ func (k *K) Tick(d time.Duration) {
 	k.W.mu.Lock()
 	k.W.tr("tick %v", d)
 	k.W.mu.Unlock()
-	time.Sleep(d)
+	kernelSleep(d)
 	k.Wait()
 }
 
@@ -179,7 +179,7 @@ func (k *K) Step() string {
 		w.mu.Lock()
 		w.tr("tick %v", d)
 		w.mu.Unlock()
-		time.Sleep(d)
+		kernelSleep(d)
 		return "tick"
 	case 4:
 		i := k.C.Intn(len(msgsEn))
@@ -232,7 +232,7 @@ func (k *K) Step() string {
 		w.tr("jump %v", d)
 		w.stat("jump")
 		w.mu.Unlock()
-		time.Sleep(d)
+		kernelSleep(d)
 		return "jump"
 	case 11:
 		k.ReleaseOne(k.C.Intn(nparks))
@@ -349,7 +349,7 @@ func (k *K) Settle(maxVirtual time.Duration, maxSteps int, idle func() bool) boo
 			k.W.mu.Lock()
 			k.W.tr("rest-tick %v", d)
 			k.W.mu.Unlock()
-			time.Sleep(d)
+			kernelSleep(d)
 			continue
 		}
 		quiet = 0
@@ -515,8 +515,22 @@ func (k *K) ReleaseAllParks() {
 		for _, p := range ps {
 			k.ReleasePark(p)
 		}
-		synctest.Wait()
+		kernelBlock(synctest.Wait)
 	}
 }
 
 
+
+// inKernel is true while the kernel goroutine executes its own code (including calls it makes
+// into the system under test for oracle reads and local setup): inserted yield points are
+// no-ops then, so that an oracle reads one consistent state. It is false exactly while the
+// kernel is blocked in synctest.Wait or time.Sleep, i.e. while SUT goroutines run.
+var inKernel bool
+
+func kernelBlock(f func()) {
+	inKernel = false
+	f()
+	inKernel = true
+}
+
+func kernelSleep(d time.Duration) { kernelBlock(func() { time.Sleep(d) }) }
